@@ -176,9 +176,15 @@ def convHeader (ver : Ver) (c : Conv) (h : Bytes × Bytes) : Conv :=
 
 def isHead (method : Bytes) : Bool := method == str "HEAD"
 
+/-- the first pass of `convert_response`: the fields nominated by the `Connection` headers of the head, wherever they
+stand in it, are hop-by-hop from the start -/
+def connInit (hs : List (Bytes × Bytes)) : Conv :=
+  { drop := [str "proxy-connection", str "keep-alive", str "upgrade"] ++
+      ((hs.filter (fun h => h.1 == str "connection")).map (fun h => connectionTokens h.2)).flatten }
+
 /-- `convert_response`: forwarded headers and how the body is framed (`none` = until close) -/
 def convertResponse (ver : Ver) (method : Bytes) (h : Head) : Option (List (Bytes × Bytes) × Option BodyLen) :=
-  let c := h.headers.foldl (convHeader ver) {}
+  let c := h.headers.foldl (convHeader ver) (connInit h.headers)
   if c.bad then none else
   let bl := if isHead method || (100 ≤ h.status ∧ h.status < 200) || h.status == 204 || h.status == 304
             then some (.determined 0) else c.bodyLen
